@@ -34,11 +34,11 @@ PROPS = {
     "C13": {
         "verus": [("manager", [SM + "get_direct", SM + "tic_toc", SM + "increment_metric"]), ("tree_node", [TN + "determine_node_to_get", TN + "get_appropriate_tree_node_from_storage", "TreeNode.get_from_storage", "TreeNode.get_child_label", "TreeNode.get_child_node"]),
                   ("directory_lookup", ["Directory.poll_for_azks_changes", "Directory.lookup", "Directory.batch_lookup", "Directory.key_history__head", "Directory.key_history__tail",
-                                        "Directory.create_single_update_proof", "Directory.get_epoch_hash", "Directory.audit", "Azks.get_latest_epoch", "lemma_the_info"]),
+                                        "Directory.create_single_update_proof", "Directory.get_epoch_hash", "Directory.audit", "Directory.retrieve_azks", "Clone for Directory.clone", "Azks.get_latest_epoch", "lemma_the_info"]),
                   ("azks_audit", ["Azks.get_root_hash_safe", "Azks.get_root_hash", "Directory.get_epoch_hash", "Azks.get_latest_epoch", "NodeLabel.root", "NodeLabel.new"])],
         "search": True,
         "always_search": True,
-        "scope": "partial: one iteration of the change poller follows the protocol exclusive lock -> flush -> reload of the epoch record -> change signal (the flush requires the exclusive lock to have been taken, the signal requires flush and reload: knowledge tokens of one loop iteration); reads of the epoch record are modelled as NONDETERMINISTIC (a publish may complete between two of them), and lookup / batch_lookup / key_history (head, every update proof, tail) / audit / get_epoch_hash take the epoch, the state filter, every tree proof and the root hash of an answer from ONE value of that record (never a proof stitched together from two epochs, whatever the interleaving with publishes); the as-of read of a node record never returns a node newer than the epoch asked for (so no answer stitches a newer node into an older epoch); a child a node names but whose record holds only newer versions (reader behind storage) is an error for get_child_node, never an absent child (else the proof walk would return a proof that misses a subtree); the read returns the latest "
+        "scope": "partial: one iteration of the change poller follows the protocol exclusive lock -> flush -> reload of the epoch record -> change signal (the flush requires the exclusive lock to have been taken, the signal requires flush and reload: knowledge tokens of one loop iteration); request handlers read the epoch record THROUGH the object cache (retrieve_azks; a direct read is a permission only the poller holds), a clone of a directory shares the cache lock and the storage manager of the original (so the poller's exclusive lock on a clone excludes the original's readers); reads of the epoch record are modelled as NONDETERMINISTIC (a publish may complete between two of them), and lookup / batch_lookup / key_history (head, every update proof, tail) / audit / get_epoch_hash take the epoch, the state filter, every tree proof and the root hash of an answer from ONE value of that record (never a proof stitched together from two epochs, whatever the interleaving with publishes); the as-of read of a node record never returns a node newer than the epoch asked for (so no answer stitches a newer node into an older epoch); a child a node names but whose record holds only newer versions (reader behind storage) is an error for get_child_node, never an absent child (else the proof walk would return a proof that misses a subtree); the read returns the latest "
                  "node whenever it is not newer, and otherwise only NotFound; get_epoch_hash answers (e, h) with e the latest epoch of the ONE epoch record it read and h the root hash of the "
                  "root node as of that very e (get_root_hash_safe refuses any epoch other than the record's). Interleavings, the change poller and the cache are not decided.",
         "trusted": ["T6 async functions are verified under single-task sequential semantics; a storage read is a function of (manager, key) during one call",
@@ -196,7 +196,8 @@ PROPS = {
     },
     "C14": {
         "verus": ["vrf_labels", "vrf_labels_seq",
-                  ("azks_walk", ["Azks.get_append_only_proof_helper", "Azks.vx_task1", "lemma_walk_unfold", "lemma_child_unfold", "lemma_multiset_algebra", "lemma_concat_multiset", "lemma_push_multiset", "lemma_empty_multiset"])],
+                  ("azks_walk", ["Azks.get_append_only_proof_helper", "Azks.vx_task1", "lemma_walk_unfold", "lemma_child_unfold", "lemma_multiset_algebra", "lemma_concat_multiset", "lemma_push_multiset", "lemma_empty_multiset"]),
+                  ("directory_lookup", ["Directory.retrieve_azks"]), "azks_insert"],
         "search": True,
         "always_search": True,
         "bounded_search": [{"obligation": "replay/c14#variants",
@@ -204,7 +205,7 @@ PROPS = {
                                      "instance re-created over the same storage before every call} x {single-threaded, 4-worker runtime} x both configurations: identical epoch hashes and identical verified lookup results"}],
         "scope": "partial (the pieces of 'results do not depend on parallelism' that are properties of ONE function): the two compile variants of VRFKeyStorage::get_node_labels - tasks in a JoinSet joined in completion order "
                  "(feature parallel_vrf) and the plain loop - satisfy the SAME contract: every input tuple is paired with the VRF label of that tuple; the audit walk returns walk_spec of the stored tree (as multisets) "
-                 "through its sequential branch and through its spawned-task branch alike. "
+                 "through its sequential branch and through its spawned-task branch alike; the parallel-level countdown of the recursive insertion cannot underflow for any level count (also 0 and 1) and both branches obey the same write discipline; an instance takes the epoch record through its cache like its tree nodes (never the epoch from storage and the tree from the cache). "
                  "BOUNDED (never counted as proved): identical epoch hashes and verified results across insertion parallelism, cache, restarts and runtimes for one history. Not decided: order / sub-batch independence of "
                  "the trie insertion (that is C01's canonical-trie statement), cache lifetimes and memory limits, the preload features, the read-only wrapper.",
         "trusted": ["tokio task / JoinSet models (a joined value is the value of a spawned future; join_next yields in completion order)", "R-SELF / R-SPAWN / R-REC / R-WHILELET desugarings; termination not proved",
@@ -259,13 +260,14 @@ PROPS = {
         "assumed": ["the node counter additions in recursive_batch_insert_nodes do not overflow (recursive results assumed <= 2^32: machine arithmetic treated as mathematical)"],
     },
     "C04": {
-        "verus": [("tree_node", ["TreeNode.set_child", "lemma_sum"]), "azks_audit", "azks_walk", ("directory_lookup", ["Directory.audit", "Azks.get_latest_epoch"])],
+        "verus": [("tree_node", ["TreeNode.set_child", "lemma_sum"]), "azks_audit", "azks_walk", ("directory_lookup", ["Directory.audit", "Azks.get_latest_epoch"]),
+                  ("directory_publish", ["Directory.publish__tail", "Directory.publish__after_commit", "Azks.get_latest_epoch"])],
         "search": True,
         "always_search": True,
         "bounded_search": [{"obligation": "replay/c04#all_ranges",
                             "bound": "one fixed 5-epoch history (new labels, updates, a no-op publish, a batch naming one label twice); every pair (s, e) with 0 <= s, e <= current + 1 after every publish; "
                                      "sequential and parallel insertion; both configurations; in-memory database - a cross-check of the whole statement for what lies between the verified units (trie insertion)"}],
-        "scope": "partial: Directory::audit refuses s >= e and e beyond the epoch of the one epoch record it read, and otherwise returns the proof of exactly (s, e) from that epoch record; batch_insert_nodes leaves the tree untouched for an empty batch (the recursive insertion and the root write are entered only with a non-empty set - "
+        "scope": "partial: the (epoch, hash) pairs publish announces: an epoch is announced only after an accepted commit, and the batch is written only once the epoch it was prepared for has been confirmed inside the transaction (so no epoch is issued twice - the audit chain would not match the announced pairs otherwise); Directory::audit refuses s >= e and e beyond the epoch of the one epoch record it read, and otherwise returns the proof of exactly (s, e) from that epoch record; batch_insert_nodes leaves the tree untouched for an empty batch (the recursive insertion and the root write are entered only with a non-empty set - "
                  "the auditor's start tree of an audit from epoch 0 depends on it) and advances the epoch by one; get_append_only_proof refuses every range with end <= start or end beyond the latest epoch, and for an accepted range returns exactly one proof per epoch "
                  "start..end (epochs list = start, start+1, .., end-1; |proofs| = |epochs|; proof i = the walk for (start+i, start+i+1) from the root as of the latest epoch); "
                  "the walk get_append_only_proof_helper itself (sequential branch, spawned task body and join, all under contract): what it returns equals walk_spec of the stored tree - a subtree not updated after s is reported by its root with the value its parent hashes (the tree root is not reported), "
